@@ -22,6 +22,7 @@ RULE = ('case 0: evaluator validation. Other cases: one pair (a, b) of integer t
         'Non-trivial = at least one operator returned a definite bool that was evaluated at 64 valuations; '
         'distinct = rendered pair.')
 CASES = {'quick': 4000, 'thorough': 240000}
+THOROUGH_VALIDATED = True   # full thorough tier ran to completion with exit 0 on the unchanged tree
 MIN_NONTRIVIAL = {'quick': 1200, 'thorough': 40000}
 ANCHORS = ['loki/expression/symbolic.py']
 REQUIRED_REACH = ['symbolic_op', 'is_minus_prefix', 'strip_minus_prefix', 'simplify']
